@@ -69,17 +69,15 @@ func (k *checker) wireAll(pairs []pairType) {
 		rep := k.rep(pt.toFn.Pos())
 		var st *types.Struct
 		var name string
-		ssau.AllInstrs(pt.toFn, func(in ssa.Instruction) {
-			if al, ok := in.(*ssa.Alloc); ok && st == nil {
-				if s, ok := schemaStructOf(al.Type().(*types.Pointer).Elem(), pt.named.Obj().Pkg(), pt.named); ok {
-					st = s
-					name = relType(al.Type().(*types.Pointer).Elem())
-					if n := ssau.NamedOf(al.Type().(*types.Pointer).Elem()); n != nil {
-						name = k.rel(n.Obj().Pkg().Path()) + "." + n.Origin().Obj().Name()
-					}
+		if _, al, _ := k.schemaObject(pt); al != nil {
+			if s, ok := schemaStructOf(al.Type().(*types.Pointer).Elem(), pt.named.Obj().Pkg(), pt.named); ok {
+				st = s
+				name = relType(al.Type().(*types.Pointer).Elem())
+				if n := ssau.NamedOf(al.Type().(*types.Pointer).Elem()); n != nil {
+					name = k.rel(n.Obj().Pkg().Path()) + "." + n.Origin().Obj().Name()
 				}
 			}
-		})
+		}
 		if st != nil {
 			k.wireStruct(rep, "PERSIST-1", name, st, true)
 		}
